@@ -699,6 +699,22 @@ func ProbeMutexContended() int { return pMutexContended }
 func ProbeRWWriterWaited() int { return pRWWriterWaited }
 func ProbeRWReaderWaited() int { return pRWReaderWaited }
 
+// Alive reports whether the task with the given id has not finished.
+//
+//go:norace
+func Alive(id int) bool {
+	s := theSim
+	if s == nil {
+		return false
+	}
+	for _, t := range s.tasks {
+		if t != nil && t.ID == id {
+			return t.state.Load() != stDone
+		}
+	}
+	return false
+}
+
 // DrawS draws from the scheduler stream on behalf of instrumented program
 // randomness (math/rand replacement).
 //
